@@ -45,6 +45,50 @@ def oneBranchApart (t t' : T) : Bool :=
   | [x], [x'] => x.side != x'.side && x.len == x'.len && x.sup == x'.sup && t.tipLens == t'.tipLens
   | _, _ => false
 
+/-- What "differs by exactly that one split" says about branch data: every branch OTHER than the
+    one that changes keeps its split, length and support (exactly one inner branch of each tree
+    is not a branch of the other, and these two define different splits), and every tip branch
+    keeps its length.  Nothing is demanded of the data the changed branch carries (the property
+    does not say that its support or length survive): that is compared with the model, as a tie. -/
+def othersKeepData (t t' : T) : Bool :=
+  let U := t.usplits
+  let U' := t'.usplits
+  match U.filter (fun s => !U'.contains s), U'.filter (fun s => !U.contains s) with
+  | [x], [x'] => x.side != x'.side && t.tipLens == t'.tipLens
+  | _, _ => false
+
+/-- the same on values computed once -/
+def othersKeepDataU (U U' : List USplit) (L L' : List (List String × Rat)) : Bool :=
+  match U.filter (fun s => !U'.contains s), U'.filter (fun s => !U.contains s) with
+  | [x], [x'] => x.side != x'.side && L == L'
+  | _, _ => false
+
+theorem othersKeepData_eq (t t' : T) : othersKeepData t t' = othersKeepDataU t.usplits t'.usplits t.tipLens t'.tipLens := rfl
+
+/-- what the oracle needs of a tree, computed once per tree by the driver -/
+structure View where
+  tips : List String
+  binary : Bool
+  unique : Bool
+  rooted : Bool
+  set : SplitSet
+  us : List USplit
+  tl : List (List String × Rat)
+
+def viewOf (t : T) : View :=
+  { tips := sortS t.tipNames, binary := t.binary, unique := t.uniqueTips, rooted := t.rooted,
+    set := t.usplits.map (·.side), us := t.usplits, tl := t.tipLens }
+
+def neighbourOK2V (v v' : View) : Bool :=
+  v'.binary && v'.unique && v.tips == v'.tips && v'.rooted == v.rooted &&
+  oneSplitApart v.set v'.set && othersKeepDataU v.us v'.us v.tl v'.tl
+
+/-- One neighbour as proposed by the implementation: is it a correct NNI neighbour of `t`?
+    (round 3: `othersKeepData` instead of `oneBranchApart`) -/
+def neighbourOK2 (t t' : T) : Bool :=
+  t'.binary && t'.uniqueTips && sameTips t t' && t'.rooted == t.rooted &&
+  oneSplitApart t.usplitSet t'.usplitSet && othersKeepData t t'
+
 /-- One neighbour as proposed by the implementation: is it a correct NNI neighbour of `t`? -/
 def neighbourOK (t t' : T) : Bool :=
   t'.binary && t'.uniqueTips && sameTips t t' && t'.rooted == t.rooted &&
@@ -55,6 +99,9 @@ def neighbourOK (t t' : T) : Bool :=
 def neighbourhoodOK (t : T) (ns : List T) : Bool :=
   ns.length == 2 * innerBranches t && ns.all (neighbourOK t) &&
   pairwiseDistinct (ns.map (·.usplitSet))
+
+/-- the driver evaluates the oracle on views; it is the same predicate -/
+theorem neighbourOK2V_eq (t t' : T) : neighbourOK2V (viewOf t) (viewOf t') = neighbourOK2 t t' := rfl
 
 /-- the split separating the two sides of the root of a rooted tree, when both children
     of the root are inner nodes (the branch F22 is about) -/
@@ -71,7 +118,7 @@ def f22Region (t : T) (ns : List T) : Bool :=
   match rootSplit t with
   | none => false
   | some rs =>
-    t.rooted && ns.length + 2 == 2 * innerBranches t && ns.all (neighbourOK t) &&
+    t.rooted && ns.length + 2 == 2 * innerBranches t && ns.all (neighbourOK2 t) &&
     pairwiseDistinct (ns.map (·.usplitSet)) && ns.all (fun n => n.usplitSet.contains rs)
 
 /- The degrees (`Nneigh()`) of the two ends of every branch, in `Edges()` order: the root has
@@ -110,5 +157,21 @@ def SameBranches : List SplitE → List SplitE → Prop
 def OneBranchApart (L L' : List SplitE) : Prop :=
   ∃ c c' R R', L.Perm (c :: R) ∧ L'.Perm (c' :: R') ∧ SameBranches R R' ∧
     c.e = c'.e ∧ c.tip = false ∧ c'.tip = false ∧ DifferentSplit c.below c'.below
+
+/-- `f22Region` on views -/
+def f22RegionV (t : T) (v : View) (vs : List View) : Bool :=
+  match rootSplit t with
+  | none => false
+  | some rs =>
+    t.rooted && vs.length + 2 == 2 * v.set.length && vs.all (neighbourOK2V v) &&
+    pairwiseDistinct (vs.map (·.set)) && vs.all (fun n => n.set.contains rs)
+
+theorem f22RegionV_eq (t : T) (ns : List T) : f22RegionV t (viewOf t) (ns.map viewOf) = f22Region t ns := by
+  unfold f22RegionV f22Region
+  cases rootSplit t with
+  | none => rfl
+  | some rs =>
+    simp only [List.length_map, List.all_map, List.map_map]
+    rfl
 
 end Gotree.C17.Spec
